@@ -49,8 +49,10 @@ def main(chk: core.Check, replay):
             sig = f"C16:hang:{shape_of(b['text'])}"
         else:
             sig = f"C16:{b['kind']}:nsing={b['nsing']}:{shape_of(b['text'])}"
+        if b.get("via"):
+            sig += ":through-intermediate"
         if b["kind"] == "value":
-            what = (f"remove_singularities of `{b['text']}` at x={b['x']}, y={b['y']} ({'on' if b['on_singular'] else 'off'} a singular point): "
+            what = (f"remove_singularities of `{b['text']}`{' (argument through an intermediate)' if b.get('via') else ''} at x={b['x']}, y={b['y']} ({'on' if b['on_singular'] else 'off'} a singular point): "
                     f"returned {b['got']!r}, expected {b['want']!r} (the original model gives {b['original_model_gives']!r})")
         else:
             what = f"remove_singularities of `{b['text']}`: {b['kind']} {b.get('exception', '')} {b.get('message', '')}"[:300]
